@@ -61,3 +61,43 @@ Theorem C01_choice_empty_optional_alt_refuted :
     run g c orc false fuel input = SyntaxErr 2.
 Proof. exists g_opt_alt, c_default, (orc_of t_opt_alt), 50, [49;32;50]%N. exact refuted_opt_alt. Qed.
 Print Assumptions C01_choice_empty_optional_alt_refuted.
+
+(* A rule that matches the empty string yields no node (Model: a=A b=B?; A: x=ID?; B: 'b'; on ""):
+   the reference tree has the nodes of Model and of the assignment a=A, the interpreter's has none. *)
+Theorem C01_nullable_rule_refuted :
+  exists g c orc fuel input,
+    wfg g 24 = false /\
+    run_tree (run g c orc false fuel input) = [NT 0 [T 9 0 0 true]] /\
+    spec_tree (spec_run g c orc fuel input) = [NT 0 [NT 1 [NT 2 []]; T 9 0 0 true]].
+Proof. exists g_nullable, c_default, (fun _ _ => None), 50, []. exact refuted_nullable. Qed.
+Print Assumptions C01_nullable_rule_refuted.
+
+(* A repetition with separator keeps the separator it gave back (x,b): terminal 6 at 1 stays in A.xs *)
+Theorem C01_trailing_separator_refuted :
+  exists g c orc fuel input,
+    wfg g 24 = false /\
+    run_tree (run g c orc false fuel input) =
+      [NT 0 [NT 1 [NT 2 [NT 3 [NT 4 [T 5 0 1 false; T 6 1 1 false]]]; T 7 1 1 true; NT 8 [T 9 2 1 true]]; T 10 3 0 true]] /\
+    spec_tree (spec_run g c orc fuel input) =
+      [NT 0 [NT 1 [NT 2 [NT 3 [NT 4 [T 5 0 1 false]]]; T 7 1 1 true; NT 8 [T 9 2 1 true]]; T 10 3 0 true]].
+Proof. exists g_trailsep, c_default, (fun _ _ => None), 50, [120;44;98]%N. exact refuted_trailsep. Qed.
+Print Assumptions C01_trailing_separator_refuted.
+
+(* The oracle hypothesis orc_pos is necessary: with a regex match of length 0 (x=/a*/ 'b' on "b") the
+   grammar is in the class but the assignment node is missing from the interpreter's tree. *)
+Theorem C01_empty_regex_match_refuted :
+  exists g c orc fuel input,
+    wfg g 24 = true /\ orc 0 0 = Some 0 /\
+    run_tree (run g c orc false fuel input) = [NT 0 [NT 1 [T 4 0 1 true]; T 5 1 0 true]] /\
+    spec_tree (spec_run g c orc fuel input) = [NT 0 [NT 1 [NT 2 [T 3 0 0 false]; T 4 0 1 true]; T 5 1 0 true]].
+Proof. exists g_emptyrx, c_default, (orc_of t_emptyrx), 50, [98]%N. exact refuted_emptyrx. Qed.
+Print Assumptions C01_empty_regex_match_refuted.
+
+(* A repetition stops after an iteration that produces no node: ('a'-)* 'b' rejects "aab". *)
+Theorem C01_rep_elem_nonproductive_refuted :
+  exists g c orc fuel input,
+    wfg g 24 = false /\
+    saccepts (spec_run g c orc fuel input) = true /\
+    run g c orc false fuel input = SyntaxErr 1.
+Proof. exists g_repsup, c_default, (fun _ _ => None), 50, [97;97;98]%N. exact refuted_repsup. Qed.
+Print Assumptions C01_rep_elem_nonproductive_refuted.
